@@ -705,7 +705,7 @@ class DataFrameSchema(Generic[TDataObject], BaseSchema):
         for col in new_schema.columns:
             # check
             if update_dict.get(col):
-                if update_dict[col].get("name"):
+                if "name" in update_dict[col]:
                     raise errors.SchemaInitError(
                         "cannot update 'name' \
                                              property of the column."
